@@ -972,3 +972,9 @@ v("d72-polars-maximum-ignores-null", "C03", PM,
 v("d72-polars-minimum-ignores-null-c05", "C05", PM,
   '            "minimum": lambda *args: pl.when(\n                pl.any_horizontal([a.is_null() for a in args])\n            )\n            .then(None)\n            .otherwise(pl.min_horizontal(args)),',
   '            "minimum": lambda *args: pl.min_horizontal(args),')
+
+v("d73-negative-limit-accepted", "C18", VR, "            if limit < 0:\n                raise ValueError(\"limit must not be negative\")\n", "")
+v("d74-pandas-blocks-pasted-by-position", "C17", PB,
+  "            for si in split:\n                if not si[blocks_in.record_keys].equals(sk):\n                    raise ValueError(\"blocks do not all hold the same record keys\")\n", "")
+v("d74-polars-blocks-pasted-by-position", "C17", PM,
+  "            for si in split:\n                if si[blocks_in.record_keys].rows() != sk.rows():\n                    raise ValueError(\"blocks do not all hold the same record keys\")\n", "")
